@@ -36,6 +36,7 @@ def planted(rng, n):
             tail = rng.sample(others, rng.randint(0, len(others)))
             ballots.append({"r": [[c] for c in perm + tail], "w": [w, 1]})
             left -= w
+        nco = len(ballots)
         left = N - target
         while left > 0:
             w = rng.randint(1, left)
@@ -45,6 +46,22 @@ def planted(rng, n):
         rule = rng.choice(["STV", "STV", "STV", "IRV"])
         cfg = base_cfg(rule=rule, m=1 if rule == "IRV" else m, simul=rng.random() < 0.5 or rule == "IRV",
                        xfer="fractional" if rule == "IRV" else rng.choice(["fractional", "random"]), tb=rng.choice(["random", "borda", "none"]))
+        # fractional weights (fractional transfer only; the whole-ballot rule refuses them): a quarter, a half or three quarters of a vote moves
+        # between two coalition ballots and between two outside ballots, so first-place tallies and surpluses are no longer whole numbers while
+        # the coalition still holds exactly k*threshold (or one vote less) of an unchanged total (own random source: the rest of the corpus
+        # is what it was)
+        fr = random.Random(7919 * len(out) + n)
+        if cfg["xfer"] == "fractional" and fr.random() < 0.5:
+            from fractions import Fraction as F
+            for lo, hi in ((0, nco), (nco, len(ballots))):
+                if hi - lo >= 2:
+                    i, j = fr.sample(range(lo, hi), 2)
+                    d = F(fr.choice([1, 2, 3]), 4)
+                    wj = F(*ballots[j]["w"]) - d
+                    if wj > 0:
+                        wi = F(*ballots[i]["w"]) + d
+                        ballots[i]["w"] = [wi.numerator, wi.denominator]
+                        ballots[j]["w"] = [wj.numerator, wj.denominator]
         out.append({"cfg": cfg, "cands": cands, "ballots": ballots, "mode": "explore", "max_paths": 40, "seed": rng.randrange(10**6)})
     return out
 
